@@ -51,13 +51,13 @@ func (c cellObs) String() string {
 const cellProbe = "zbq"
 
 func execOne(p *tmplx.Prepared, v interface{}, c bool) tmplx.Result {
-	d := tmplx.Data{P0: v, C: c}
+	d := tmplx.Data{P0: v, C: c, W: "stylesheet", L: []interface{}{1, 2}}
 	return p.Exec(&d)
 }
 
 // execOne2 additionally fixes the second condition.
 func execOne2(p *tmplx.Prepared, v interface{}, c, c2 bool) tmplx.Result {
-	d := tmplx.Data{P0: v, C: c, C2: c2}
+	d := tmplx.Data{P0: v, C: c, C2: c2, W: "stylesheet", L: []interface{}{1, 2}}
 	return p.Exec(&d)
 }
 
